@@ -47,6 +47,13 @@ NODE_SPEC = {
 OPFAM = {"UnoOp": ("UnoOp", "UnoOperation"), "Op": ("DuoOp", "Operation"), "TresOp": ("TresOp", "TresOperation")}
 
 
+def is_conv(name, a, b):
+    """`name` is the conversion A -> B of this crate, spelled `x.into()` (the blanket impl, when the engine could not follow it) or
+    `B::from(x)` (the workspace's `impl From<A> for B`)"""
+    return ("Into" in name and name.endswith("@[%s, %s]" % (a, b))) or name.endswith("<impl std::convert::From<%s> for %s>::from" % (a, b)) \
+        or name.endswith("<%s as std::convert::From<%s>>::from" % (b, a))
+
+
 def variants(fb, path):
     a = fb.adts.get(path)
     if a is None:
@@ -245,7 +252,7 @@ def check_node_codec(ctx, fb, tables):
             fam = OPFAM.get(gvn)
             if ok and fam:
                 o = got.get("0")
-                good = o[0] == "call" and "Into" in o[1] and o[1].endswith("@[circuit::iden3calc::proto::%s, circuit::iden3calc::graph::%s]" % fam) and \
+                good = o[0] == "call" and is_conv(o[1], "circuit::iden3calc::proto::%s" % fam[0], "circuit::iden3calc::graph::%s" % fam[1]) and \
                     o[2][0][0] == "unwrap" and o[2][0][1][0] == "call" and ("proto::%s as std::convert::TryFrom<i32>>::try_from" % fam[0]) in o[2][0][1][1] and \
                     o[2][0][1][2] == (F(msg, "op"),)
                 if not good:
@@ -460,7 +467,7 @@ def check_framing(ctx, fb):
     why = "loop body: %s" % [sh(("call", c[1], c[2]), 100) for c in rms]
     if len(rms) == 1 and rms[0][1].endswith("proto::Node]") and len(pushes) == 1:
         x = pushes[0][3]
-        ok = x[0] == "call" and "Into" in x[1] and x[1].endswith("@[circuit::iden3calc::proto::Node, circuit::iden3calc::graph::Node]") and x[2] == (("unwrap", ("call", rms[0][1], rms[0][2])),)
+        ok = x[0] == "call" and is_conv(x[1], "circuit::iden3calc::proto::Node", "circuit::iden3calc::graph::Node") and x[2] == (("unwrap", ("call", rms[0][1], rms[0][2])),)
         if ok and not (rng and cint(rng[0]) == 0 and rng[1][0] == "unwrap" and "read_u64" in rng[1][1][1]):
             ok, why = False, "loop runs over %s, specification 0..count" % sh(rng, 100)
     ctx.check(ok, "R20-3", inst + " node loop", "count x (read_message<proto::Node> -> graph::Node, pushed in order)", why, loc(rit))
